@@ -80,7 +80,7 @@ def cases(ctx):
         i += 1
     # seeded long sequences (size 0 and sizes far above two blocks included), small and large files
     rng = ctx.rng('seq')
-    for j in range((400 if ctx.tier == 'quick' else 6000) // ctx.nshards + 1):
+    for j in range((400 if ctx.tier == 'quick' else 60000) // ctx.nshards + 1):
         name = rng.choice(list(_FILES))
         big = name in ('F70', 'F200', 'F2300')
         pool = [0, 1, 2, 3, 4, 7, 100, 1011, 1012, 1013, 1014, 2024, 2025, 3000, rng.randint(1, 1300)]
@@ -110,11 +110,11 @@ def cases(ctx):
         ctx.exhaustive_subspace('unblock_1014: every trailer byte x 255 wrong values', 20 * 255)
     # inverse of the blocking function
     rng = ctx.rng('inv')
-    for j in range((200 if ctx.tier == 'quick' else 3000) // ctx.nshards + 1):
+    for j in range((200 if ctx.tier == 'quick' else 30000) // ctx.nshards + 1):
         yield {'kind': 'inverse', 'n': rng.choice([0, 1, 1011, 1012, 1013, 2023, 2024, 2025, rng.randint(0, 6000)])}
     # records from a blocked file = records from the unblocked stream
     rng = ctx.rng('vbs')
-    for j in range((100 if ctx.tier == 'quick' else 1500) // ctx.nshards + 1):
+    for j in range((100 if ctx.tier == 'quick' else 15000) // ctx.nshards + 1):
         yield {'kind': 'records', 'lens': [rng.choice([1, 4, 1004, 1008, 1012, 2020, rng.randint(1, 1500)])
                                            for _ in range(rng.randint(1, 9))]}
     # one file of thousands of records (more than 1 MiB and more than 2 MiB of blocks)
